@@ -4,4 +4,14 @@ TABLE = {
  'C01': {'text': 'every value-level TT operation is executed on thousands of generated operands (orders 1-5, size-1 modes, rank-1 bonds, over-parameterised ranks, real/complex/mixed) with a postcondition contract on the real method comparing the result with NumPy on the dense value of the pre-call snapshot; exploration is the honest level: reach is bounded by the generated shape classes',
          'note': NOTE, 'technique': 'runtime contracts (postconditions vs dense reference) on the real TT methods under generated workloads'},
 }
+TABLE.update({
+ 'C02': {'text': 'contracts on tensordot (all four modes x every admissible axis count incl. complete contractions, enumerated), rank_tensordot, concatenate, rank_transpose, diag (all mode subsets), squeeze (all placements of mode-free cores), tt2qtt/qtt2tt (+ round trip) and build_core(_vector) compare the dense value and the dims of each real result with an einsum/reshape definition evaluated on the pre-call snapshot',
+         'note': NOTE, 'technique': 'runtime contracts vs einsum/reshape reference, enumerated + random shape classes'},
+ 'C03': {'text': 'contract on the real ortho_left/ortho_right/ortho: dense value preserved, every processed core an isometry, ranks not increased, cores outside the requested range bitwise unchanged, metadata consistent; all (start,end) pairs for orders <= 5, rank-deficient / over-parameterised / complex / boundary-rank inputs, and the gesvd fallback branch driven by a LinAlgError failpoint at the LAPACK boundary',
+         'note': NOTE, 'technique': 'runtime contracts on in-place sweeps + failpoint injection at the SVD boundary'},
+ 'C04': {'text': 'contract on TT(ndarray, threshold, max_rank) and on the truncating orthonormalisations: rank bound always, Frobenius error against the root-sum-square of the optimal unfolding errors (computed with numpy.linalg.svd on the original dense tensor) whenever the monitor measures the precondition (opposite side orthonormal), threshold rule with the number of discarded directions recomputed from the result ranks',
+         'note': NOTE, 'technique': 'runtime contracts with error bounds from dense unfolding spectra'},
+ 'C05': {'text': 'contract on the real svd/pinv at every split index: orthonormal factors, singular values equal to numpy.linalg.svd of the unfolding, reconstruction, pinv equal to conj(pinv(unfolding))^T, input bitwise unchanged; truncating calls are decided only when the cut lies in a measured spectral gap (else counted as skipped)',
+         'note': NOTE, 'technique': 'runtime contracts vs numpy.linalg.svd/pinv of the dense unfolding'},
+})
 NOT_YET = {}
